@@ -202,6 +202,45 @@ impl CounterMarker {
         self.tracing_counter.set((self.tracing_counter.get() & !BITS_MASK) | (new_mark as u16));
     }
 
+    #[cfg(any(rust_cc_verif, kani))]
+    #[inline]
+    pub(crate) fn verif_from_raw(tracing_counter: u16, counter: u16) -> CounterMarker {
+        CounterMarker {
+            tracing_counter: Cell::new(tracing_counter),
+            counter: Cell::new(counter),
+        }
+    }
+
+    #[cfg(any(rust_cc_verif, kani))]
+    #[inline]
+    pub(crate) fn verif_raw(&self) -> (u16, u16) {
+        (self.tracing_counter.get(), self.counter.get())
+    }
+
+    #[cfg(any(rust_cc_verif, kani))]
+    #[inline]
+    pub(crate) fn verif_add_counter(&self, n: u16) -> bool {
+        let c = self.counter.get() & COUNTER_MASK;
+        if n > MAX || c > MAX - n {
+            false
+        } else {
+            self.counter.set(self.counter.get() + n);
+            true
+        }
+    }
+
+    #[cfg(any(rust_cc_verif, kani))]
+    #[inline]
+    pub(crate) fn verif_sub_counter(&self, n: u16) -> bool {
+        let c = self.counter.get() & COUNTER_MASK;
+        if n >= c {
+            false
+        } else {
+            self.counter.set(self.counter.get() - n);
+            true
+        }
+    }
+
     #[cfg(any(feature = "weak-ptrs", feature = "finalization"))]
     #[inline(always)]
     fn set_bits(cell: &Cell<u16>, value: bool, mask: u16) {
